@@ -1,0 +1,55 @@
+//go:build verif
+
+package policy
+
+import (
+	"strings"
+
+	"github.com/inbucket/inbucket/v3/pkg/stringutil"
+)
+
+var _ = strings.ToLower
+var _ = stringutil.SliceContains
+
+func specAssert(b bool) {
+	if !b {
+		panic("specAssert failed")
+	}
+}
+
+// ---------------------------------------------------------------------------------------------
+// C05: accept / reject / store decisions follow the configured policy.
+
+//@ pred spec_contains(list []string, s string) bool = exists i int :: 0 <= i && i < len(list) && list[i] == s
+
+// The documented rule (doc/config.md): default-accept and not in the reject list, or default-reject
+// and in the accept list; comparison on the lower-cased domain.
+//@ func (*Addressing).ShouldAcceptDomain
+//@   requires a.Config != nil
+//@   ensures ret == ((a.Config.SMTP.DefaultAccept && !spec_contains(a.Config.SMTP.RejectDomains, strings.ToLower(domain))) ||
+//@                   (!a.Config.SMTP.DefaultAccept && spec_contains(a.Config.SMTP.AcceptDomains, strings.ToLower(domain))))
+//@   serves C05
+
+//@ func (*Addressing).ShouldStoreDomain
+//@   requires a.Config != nil
+//@   ensures ret == ((a.Config.SMTP.DefaultStore && !spec_contains(a.Config.SMTP.DiscardDomains, strings.ToLower(domain))) ||
+//@                   (!a.Config.SMTP.DefaultStore && spec_contains(a.Config.SMTP.StoreDomains, strings.ToLower(domain))))
+//@   serves C05 C01
+
+//@ pred spec_shouldAccept(r *Recipient) bool =
+//@     (r.addrPolicy.Config.SMTP.DefaultAccept && !spec_contains(r.addrPolicy.Config.SMTP.RejectDomains, strings.ToLower(r.Domain))) ||
+//@     (!r.addrPolicy.Config.SMTP.DefaultAccept && spec_contains(r.addrPolicy.Config.SMTP.AcceptDomains, strings.ToLower(r.Domain)))
+
+//@ pred spec_shouldStore(r *Recipient) bool =
+//@     (r.addrPolicy.Config.SMTP.DefaultStore && !spec_contains(r.addrPolicy.Config.SMTP.DiscardDomains, strings.ToLower(r.Domain))) ||
+//@     (!r.addrPolicy.Config.SMTP.DefaultStore && spec_contains(r.addrPolicy.Config.SMTP.StoreDomains, strings.ToLower(r.Domain)))
+
+//@ func (*Recipient).ShouldAccept
+//@   requires r.addrPolicy != nil && r.addrPolicy.Config != nil
+//@   ensures ret == spec_shouldAccept(r)
+//@   serves C05
+
+//@ func (*Recipient).ShouldStore
+//@   requires r.addrPolicy != nil && r.addrPolicy.Config != nil
+//@   ensures ret == spec_shouldStore(r)
+//@   serves C05 C01
